@@ -200,7 +200,7 @@ func main() {
 	runner.Main(runner.Config{
 		ID:    "C17",
 		Level: "model_checking",
-		Rule:  "bounded exhaustive enumeration of (patch, whitelist) pairs through the real patcher with a recording bowl around a real fresh bowl and a recording target pool. perm family: new builds of 6 files, one of each kind {whole-file copy, renamed copy, patched (range+data), brand-new, new content at an old path, empty} in every order (720 permutations) x {plain rsync patch, rediff-optimized (bsdiff series next to rsync series), rediff with ForceMapAll} x {none, gzip-1, brotli-1} x ALL 64 subsets of file indices (quick: every 6th permutation for plain patches, every 12th with one round-robin compression setting for optimized ones; thorough: all permutations, optimized ones under one round-robin setting and every 6th under all three). idx family: old build of 2051 files so that bsdiff series carry targetIndex 2048, 2049 (the numeric value of the end-marker enum) and 2050; all 32 subsets of its 5 new files. Oracle per pair: Resume nil, GetTouchedFiles = |subset|, bowl GetWriter/Transpose only for whitelisted indices, pool data access only while a whitelisted file is announced and only to old files its series refers to, whitelisted files byte-equal to full application. Non-trivial = the whitelist is neither empty nor full (files are both skipped and processed).",
+		Rule:  "bounded exhaustive enumeration of (patch, whitelist) pairs through the real patcher with a recording bowl around a real fresh bowl and a recording target pool. perm family: new builds of 6 files, one of each kind {whole-file copy, renamed copy, patched (range+data), brand-new, new content at an old path, empty} in every order (720 permutations) x {plain rsync patch, rediff-optimized (bsdiff series next to rsync series), rediff with ForceMapAll} x {none, gzip-1, brotli-1} x ALL 64 subsets of file indices (quick: every 6th permutation for plain patches, every 12th with one round-robin compression setting for optimized ones; thorough: all permutations, optimized ones under one round-robin setting and every 6th under all three). all-compressions: one permutation (two in thorough) under every registered algorithm x quality, all 64 subsets. idx family: old build of 2051 files so that bsdiff series carry targetIndex 2048, 2049 (the numeric value of the end-marker enum) and 2050; all 32 subsets of its 5 new files. Oracle per pair: Resume nil, GetTouchedFiles = |subset|, bowl GetWriter/Transpose only for whitelisted indices, pool data access only while a whitelisted file is announced and only to old files its series refers to, whitelisted files byte-equal to full application. Non-trivial = the whitelist is neither empty nor full (files are both skipped and processed).",
 		Assumptions: []string{
 			"file contents are seeded pseudo-random streams (VERIF_SEED)",
 			"optimized patches are produced by the real rediff with 2 partitions; every bsdiff-mapped file has >= 300 bytes (rediff crashes on degenerate inputs are C07/C12's subject)",
@@ -313,6 +313,7 @@ func body(w *runner.W) {
 		}
 		// 2. bowl calls, 3. pool accesses
 		writers, transposes, reads := 0, 0, 0
+		badBowl, badLabel, badRef := false, false, false // first event of each class only
 		for _, e := range rec.events {
 			switch e.What {
 			case "writer", "transpose":
@@ -321,20 +322,20 @@ func body(w *runner.W) {
 				} else {
 					transposes++
 				}
-				if !wl[e.Index] {
+				if !wl[e.Index] && !badBowl {
+					badBowl = true
 					r.Failf("bowl-call-for-unlisted-file:"+e.What, "whitelist %v: bowl asked for %s of new file %d (%s), which is not whitelisted", maskList(c.Mask, nfiles), e.What, e.Index, pathOf(p, e.Index))
 				}
 			case "open", "read", "seek":
 				reads++
-				if !wlPaths[e.Label] {
+				if !wlPaths[e.Label] && !badLabel {
+					badLabel = true
 					r.Failf("pool-access-outside-whitelisted-file", "whitelist %v: old file %d accessed (%s) while %q was being processed", maskList(c.Mask, nfiles), e.Index, e.What, e.Label)
 				}
-				if !allowedOld[e.Index] {
+				if !allowedOld[e.Index] && !badRef {
+					badRef = true
 					r.Failf("pool-access-to-unreferenced-old-file", "whitelist %v: old file %d accessed (%s); no whitelisted file's series refers to it", maskList(c.Mask, nfiles), e.Index, e.What)
 				}
-			}
-			if r.Failed() {
-				break
 			}
 		}
 		// 4. content of whitelisted files == full application
@@ -413,6 +414,35 @@ func body(w *runner.W) {
 			enumPerm(opt, []string{"opt", "optall"}, 1, 6)
 		}
 		opt.Done()
+	}
+
+	// every registered compression setting (algorithm x quality) on one or two
+	// permutations, all whitelists
+	ac := runner.NewSub(w, "all-compressions", run, runner.Journal())
+	if ac.Active() {
+		perms := permutations(allKinds)
+		pick := [][]string{perms[len(perms)/2]}
+		modes := []string{"plain", "opt"}
+		if !w.Quick() {
+			pick = append(pick, perms[0])
+			modes = append(modes, "optall")
+		}
+		g := 0
+		for _, perm := range pick {
+			for _, mode := range modes {
+				for _, comp := range wh.AllComps() {
+					g++
+					if !w.Owns(g) {
+						continue
+					}
+					for mask := 0; mask < 1<<uint(len(perm)); mask++ {
+						ac.DoOwned(Case{Fam: "perm", Perm: perm, Comp: comp, Mode: mode, Mask: mask})
+					}
+				}
+			}
+		}
+		ac.Note("patches", g)
+		ac.Done()
 	}
 
 	idx := runner.NewSub(w, "idx2049", run, runner.Journal())
